@@ -126,6 +126,15 @@ fn typecheck_single_file_for_query(
     Ok((hir_table, results, genv, parse_diagnostics))
 }
 
+/// The offset of a (line, column) position. `LineIndex::offset` adds the column to the start of
+/// the line unchecked, so a column no text can have is refused here.
+fn offset_of_position(src: &str, line: u32, col: u32) -> Option<TextSize> {
+    if col as usize > src.len() {
+        return None;
+    }
+    line_index::LineIndex::new(src).offset(line_index::LineCol { line, col })
+}
+
 /// Another `.gom` file next to `path`: the package the file belongs to has more than this file.
 fn has_sibling_sources(path: &Path) -> bool {
     let dir = path
@@ -172,9 +181,7 @@ pub fn hover_type(path: &Path, src: &str, line: u32, col: u32) -> Result<String,
     let root = MySyntaxNode::new_root(result.green_node);
     let cst = cst::cst::File::cast(root).ok_or_else(|| "failed to cast syntax tree".to_string())?;
 
-    let line_index = line_index::LineIndex::new(src);
-    let offset = line_index
-        .offset(line_index::LineCol { line, col })
+    let offset = offset_of_position(src, line, col)
         .ok_or_else(|| "failed to get offset from line and column".to_string())?;
     // a column past the end of its line maps to an offset past the end of the text
     if u32::from(offset) as usize > src.len() {
@@ -335,8 +342,7 @@ pub fn dot_completions(
     line: u32,
     col: u32,
 ) -> Option<Vec<DotCompletionItem>> {
-    let line_index = line_index::LineIndex::new(src);
-    let offset = line_index.offset(line_index::LineCol { line, col })?;
+    let offset = offset_of_position(src, line, col)?;
     let (prefix_start, prefix) = ident_prefix_at_offset(src, offset)?;
     let dot_offset = prefix_start.checked_sub(TextSize::from(1))?;
     if src.as_bytes().get(u32::from(dot_offset) as usize) != Some(&b'.') {
@@ -555,8 +561,7 @@ pub fn colon_colon_completions(
     line: u32,
     col: u32,
 ) -> Option<Vec<ColonColonCompletionItem>> {
-    let line_index = line_index::LineIndex::new(src);
-    let offset = line_index.offset(line_index::LineCol { line, col })?;
+    let offset = offset_of_position(src, line, col)?;
     let (prefix_start, prefix) = ident_prefix_at_offset(src, offset)?;
     let colon_start = prefix_start.checked_sub(TextSize::from(2))?;
     if src
